@@ -3,7 +3,8 @@
 
 use crate::common::{Case, Tally, viol};
 use cascette_crypto::{ContentKey, FileDataId};
-use cascette_formats::root::{ContentFlags, LocaleFlags, RootBuilder, RootFile, RootVersion, calculate_name_hash};
+use cascette_formats::CascFormat;
+use cascette_formats::root::{ContentFlags, LocaleFlags, RootBuilder, RootFile, RootHeader, RootHeaderInfo, RootMagic, RootVersion, calculate_name_hash};
 use serde_json::{Value, json};
 use std::collections::{BTreeMap, BTreeSet};
 use vh::{Ctx, Rng};
@@ -275,6 +276,27 @@ pub fn run(ctx: &Ctx, case: &Case, t: &mut Tally) {
             return;
         }
     };
+    if !verify_root(ctx, case, t, &mut rng, &parsed, &built.recs, &built.paths, &class, "", &info) {
+        return;
+    }
+    if ctx.want_sample() && built.blocks.len() >= 3 {
+        ctx.sample(json!({"family":"root","params":case.params,"info":info}));
+    }
+    if case.idx % ROOT_EXT_EVERY == 0 {
+        extend_root(ctx, case, t, &mut rng, version, parsed, &built);
+    }
+}
+
+/// The listed header ambiguity keeps its one signature whatever path produced the manifest.
+fn misparse_sig(ph: &str, class: &str) -> String {
+    if class == "V2|total_files=16..99|named_files=1..4" { format!("C03|root|built-output-misparsed|{class}") } else { format!("C03|root|{ph}built-output-misparsed|{class}") }
+}
+
+/// Level 1 (linear scan over the parsed blocks == inserted records) and level 2 (every lookup flavour vs the
+/// records) on one parsed manifest; `ph` names the path that produced it ("" = RootBuilder -> bytes -> parse).
+#[allow(clippy::too_many_arguments, clippy::too_many_lines)]
+fn verify_root(ctx: &Ctx, case: &Case, t: &mut Tally, rng: &mut Rng, parsed: &RootFile, recs: &[Rec], paths: &BTreeMap<usize, String>, class: &str, ph: &str, info: &Value) -> bool {
+    let n_records = recs.len();
     // level 1: linear scan over parsed blocks == inserted records
     let mut scan: Vec<Rec> = Vec::new();
     for b in &parsed.blocks {
@@ -284,23 +306,23 @@ pub fn run(ctx: &Ctx, case: &Case, t: &mut Tally) {
     }
     let mut a = scan.clone();
     a.sort();
-    let mut m = built.recs.clone();
+    let mut m = recs.to_vec();
     m.sort();
     if a != m {
         let first = m.iter().find(|r| !a.contains(r));
-        viol(ctx, case, &format!("C03|root|built-output-misparsed|{class}"), "records of the parsed root manifest differ from what was inserted", json!({"parsed_version": format!("{:?}", parsed.version), "parsed_records": a.len(), "first_missing": first.map(|r| json!({"fdid": r.fdid, "ckey": hex::encode(r.ckey), "hash": r.hash, "locale": r.locale, "content": r.content})), "info": info}));
-        return;
+        viol(ctx, case, &misparse_sig(ph, class), "records of the parsed root manifest differ from what was inserted", json!({"parsed_version": format!("{:?}", parsed.version), "parsed_records": a.len(), "first_missing": first.map(|r| json!({"fdid": r.fdid, "ckey": hex::encode(r.ckey), "hash": r.hash, "locale": r.locale, "content": r.content})), "info": info}));
+        return false;
     }
     // level 2
     let mut by_fdid: BTreeMap<u32, Vec<&Rec>> = BTreeMap::new();
     let mut by_hash: BTreeMap<u64, Vec<&Rec>> = BTreeMap::new();
-    for r in &built.recs {
+    for r in recs {
         by_fdid.entry(r.fdid).or_default().push(r);
         if let Some(h) = r.hash {
             by_hash.entry(h).or_default().push(r);
         }
     }
-    let used_locales: u32 = built.blocks.iter().fold(0, |a, b| a | b.0);
+    let used_locales: u32 = recs.iter().fold(0, |a, r| a | r.locale);
     let free_locale = LOCALE_BITS.iter().copied().find(|b| used_locales & b == 0).unwrap_or(0x8000_0000);
     let mut lookups = 0u64;
     let queries = |r: &Rec, rng: &mut Rng| -> Vec<(u32, u64)> {
@@ -322,11 +344,11 @@ pub fn run(ctx: &Ctx, case: &Case, t: &mut Tally) {
                 (true, true) => "absent-key-found",
                 _ => "wrong-value",
             };
-            viol(ctx, case, &format!("C03|root|{api}|{rel}|{class}"), "root lookup disagrees with the inserted records (first entry whose flags match)", json!({"key": keydesc, "query_locale": ql, "query_content": qc, "acceptable": acceptable.iter().map(hex::encode).collect::<Vec<_>>(), "got": got.map(hex::encode), "info": info}));
+            viol(ctx, case, &format!("C03|root|{ph}{api}|{rel}|{class}"), "root lookup disagrees with the inserted records (first entry whose flags match)", json!({"key": keydesc, "query_locale": ql, "query_content": qc, "acceptable": acceptable.iter().map(hex::encode).collect::<Vec<_>>(), "got": got.map(hex::encode), "info": info}));
         }
     };
-    for (i, r) in built.recs.iter().enumerate() {
-        for (ql, qc) in queries(r, &mut rng) {
+    for (i, r) in recs.iter().enumerate() {
+        for (ql, qc) in queries(r, rng) {
             let got = parsed.resolve_by_id(FileDataId::new(r.fdid), LocaleFlags::new(ql), ContentFlags::new(qc)).map(|k| *k.as_bytes());
             lookups += 1;
             check(ctx, "resolve_by_id", json!({"fdid": r.fdid}), by_fdid.get(&r.fdid), ql, qc, got);
@@ -335,7 +357,7 @@ pub fn run(ctx: &Ctx, case: &Case, t: &mut Tally) {
                 lookups += 1;
                 check(ctx, "resolve_by_hash", json!({"hash": h}), by_hash.get(&h), ql, qc, got);
             }
-            if let Some(p) = built.paths.get(&i) {
+            if let Some(p) = paths.get(&i) {
                 let got = parsed.resolve_by_path(p, LocaleFlags::new(ql), ContentFlags::new(qc)).map(|k| *k.as_bytes());
                 lookups += 1;
                 check(ctx, "resolve_by_path", json!({"path": p}), r.hash.and_then(|h| by_hash.get(&h)), ql, qc, got);
@@ -348,20 +370,20 @@ pub fn run(ctx: &Ctx, case: &Case, t: &mut Tally) {
         exp.sort_unstable();
         lookups += 1;
         if got != exp {
-            viol(ctx, case, &format!("C03|root|get_entries_by_id|!=inserted|{class}"), "get_entries_by_id differs from the inserted entries of the FileDataID", json!({"fdid": r.fdid, "expected": exp.len(), "got": got.len(), "info": info}));
+            viol(ctx, case, &format!("C03|root|{ph}get_entries_by_id|!=inserted|{class}"), "get_entries_by_id differs from the inserted entries of the FileDataID", json!({"fdid": r.fdid, "expected": exp.len(), "got": got.len(), "info": info}));
         }
-        if let Some(p) = built.paths.get(&i) {
+        if let Some(p) = paths.get(&i) {
             let n_got = parsed.get_entries_by_path(p).map_or(0, Vec::len);
             let n_exp = r.hash.and_then(|h| by_hash.get(&h)).map_or(0, Vec::len);
             lookups += 1;
             if n_got != n_exp {
-                viol(ctx, case, &format!("C03|root|get_entries_by_path|!=inserted|{class}"), "get_entries_by_path differs from the inserted entries of the path", json!({"path": p, "expected": n_exp, "got": n_got, "info": info}));
+                viol(ctx, case, &format!("C03|root|{ph}get_entries_by_path|!=inserted|{class}"), "get_entries_by_path differs from the inserted entries of the path", json!({"path": p, "expected": n_exp, "got": n_got, "info": info}));
             }
         }
     }
     // negative probes: neighbours of inserted ids and hashes, random ids/hashes/paths
     let mut neg_ids: Vec<u32> = Vec::new();
-    for r in built.recs.iter().take(200) {
+    for r in recs.iter().take(200) {
         neg_ids.push(r.fdid.wrapping_add(1));
         neg_ids.push(r.fdid.wrapping_sub(1));
     }
@@ -374,11 +396,11 @@ pub fn run(ctx: &Ctx, case: &Case, t: &mut Tally) {
         }
         let present = parsed.get_entries_by_id(FileDataId::new(id)).is_some_and(|v| !v.is_empty());
         if present != by_fdid.contains_key(&id) {
-            viol(ctx, case, &format!("C03|root|get_entries_by_id|presence-differs|{class}"), "get_entries_by_id reports entries for an id that was not inserted (or none for one that was)", json!({"fdid": id, "info": info}));
+            viol(ctx, case, &format!("C03|root|{ph}get_entries_by_id|presence-differs|{class}"), "get_entries_by_id reports entries for an id that was not inserted (or none for one that was)", json!({"fdid": id, "info": info}));
         }
     }
     let mut neg_hashes: Vec<u64> = Vec::new();
-    for r in built.recs.iter().filter_map(|r| r.hash).take(200) {
+    for r in recs.iter().filter_map(|r| r.hash).take(200) {
         neg_hashes.push(r.wrapping_add(1));
         neg_hashes.push(r.wrapping_sub(1));
         neg_hashes.push(r.swap_bytes());
@@ -389,7 +411,7 @@ pub fn run(ctx: &Ctx, case: &Case, t: &mut Tally) {
         lookups += 1;
         check(ctx, "resolve_by_hash", json!({"hash": h, "probe": "negative"}), by_hash.get(&h), LocaleFlags::ALL, 0, got);
     }
-    for (i, p) in built.paths.iter().take(100) {
+    for (i, p) in paths.iter().take(100) {
         for variant in [format!("{p}.bak"), p[..p.len() - 1].to_string(), format!("x{p}")] {
             let h = calculate_name_hash(&variant);
             let got = parsed.resolve_by_path(&variant, LocaleFlags::new(LocaleFlags::ALL), ContentFlags::new(0)).map(|k| *k.as_bytes());
@@ -399,11 +421,425 @@ pub fn run(ctx: &Ctx, case: &Case, t: &mut Tally) {
     }
     let (nf, nn) = parsed.lookup_stats();
     if nf != by_fdid.len() || nn != by_hash.len() {
-        viol(ctx, case, &format!("C03|root|lookup_stats|!=inserted|{class}"), "lookup tables hold a different number of ids / name hashes than inserted", json!({"fdid_count": nf, "name_count": nn, "expected": [by_fdid.len(), by_hash.len()], "info": info}));
+        viol(ctx, case, &format!("C03|root|{ph}lookup_stats|!=inserted|{class}"), "lookup tables hold a different number of ids / name hashes than inserted", json!({"fdid_count": nf, "name_count": nn, "expected": [by_fdid.len(), by_hash.len()], "info": info}));
+    }
+    // count accessors and the record iterator (a linear-scan API of the manifest itself)
+    let named = recs.iter().filter(|r| r.hash.is_some()).count();
+    let mut it: Vec<(u32, [u8; 16], Option<u64>)> = parsed.iter_records().map(|r| (r.file_data_id.get(), *r.content_key.as_bytes(), r.name_hash)).collect();
+    it.sort_unstable();
+    let mut want: Vec<(u32, [u8; 16], Option<u64>)> = recs.iter().map(|r| (r.fdid, r.ckey, r.hash)).collect();
+    want.sort_unstable();
+    if parsed.total_files() as usize != n_records || parsed.named_files() as usize != named || it != want {
+        viol(ctx, case, &format!("C03|root|{ph}total_files/named_files/iter_records|!=inserted|{class}"), "file counts or the record iterator of the parsed manifest differ from the inserted records", json!({"total_files": parsed.total_files(), "named_files": parsed.named_files(), "iter_records": it.len(), "expected": [n_records, named], "info": info}));
     }
     t.o("root.lookups", lookups);
-    t.o("root.records_inserted", n_records as u64);
-    if ctx.want_sample() && built.blocks.len() >= 3 {
-        ctx.sample(json!({"family":"root","params":case.params,"info":info}));
+    if ph.is_empty() {
+        t.o("root.records_inserted", n_records as u64);
+    } else {
+        t.o(&format!("root.{}lookups", ph.replace('|', ".")), lookups);
+    }
+    true
+}
+
+/// Every `ROOT_EXT_EVERY`-th manifest also goes through the header variants, the `CascFormat` entry points and the
+/// editing operations of `RootBuilder`.
+const ROOT_EXT_EVERY: u64 = 3;
+
+fn ver_name(v: RootVersion) -> &'static str {
+    match v {
+        RootVersion::V1 => "V1",
+        RootVersion::V2 => "V2",
+        RootVersion::V3 => "V3",
+        RootVersion::V4 => "V4",
+    }
+}
+
+fn class_of(v: RootVersion, recs: &[Rec]) -> String {
+    format!("{}|total_files={}|named_files={}", ver_name(v), bucket_total(recs.len()), bucket_named(recs.iter().filter(|r| r.hash.is_some()).count()))
+}
+
+/// Same blocks under another header the format allows: `MFST` magic (big-endian header fields), the extended
+/// header for V2 block data (version field 1 or 2), header sizes 24 / 28 with padding. Returns (variant, bytes).
+fn rehead(rng: &mut Rng, version: RootVersion, bytes: &[u8], total: u32, named: u32) -> Option<(&'static str, Vec<u8>)> {
+    let info = RootHeaderInfo { total_files: total, named_files: named };
+    let (strip, variants): (usize, &[&'static str]) = match version {
+        RootVersion::V1 => return None,
+        RootVersion::V2 => (12, &["MFST-classic", "TSFM-ext20-v1", "TSFM-ext20-v2", "MFST-ext24-v2", "TSFM-ext28-v1", "MFST-ext22-v2"]),
+        _ => (20, &["MFST-ext20", "TSFM-ext24", "MFST-ext24", "TSFM-ext28", "TSFM-ext22"]),
+    };
+    let variant = *rng.pick(variants);
+    let magic = if variant.starts_with("MFST") { RootMagic::Mfst } else { RootMagic::Tsfm };
+    let vfield = match version {
+        RootVersion::V2 => if variant.ends_with("v1") { 1 } else { 2 },
+        RootVersion::V3 => 3,
+        _ => 4,
+    };
+    let header_size: u32 = if variant.contains("ext20") { 20 } else if variant.contains("ext22") { 22 } else if variant.contains("ext24") { 24 } else { 28 };
+    let header = if variant == "MFST-classic" { RootHeader::V2 { magic, info } } else { RootHeader::V3V4 { magic, header_size, version: vfield, info, padding: rng.next_u32() } };
+    let mut out = std::io::Cursor::new(Vec::new());
+    header.write(&mut out).ok()?;
+    let mut out = out.into_inner();
+    if variant != "MFST-classic" && out.len() < header_size as usize {
+        out.resize(header_size as usize, 0); // header bytes past the first padding word: skipped by readers
+    }
+    out.extend_from_slice(bytes.get(strip..)?);
+    Some((variant, out))
+}
+
+#[allow(clippy::too_many_lines)]
+fn extend_root(ctx: &Ctx, case: &Case, t: &mut Tally, rng: &mut Rng, version: RootVersion, mut parsed: RootFile, built: &Built) {
+    let sel = case.idx / ROOT_EXT_EVERY;
+    let base_info = json!({"records": built.recs.len(), "named": built.named_count, "blocks": built.blocks.len()});
+    // ---- (a) header variants over the same blocks
+    if sel % 3 == 0 {
+        let class = class_of(version, &built.recs);
+        if let Some((variant, bytes)) = rehead(rng, version, &built.bytes, built.recs.len() as u32, built.named_count as u32) {
+            if variant == "MFST-classic" && class == "V2|total_files=16..99|named_files=1..4" {
+                t.o("root.header_variant.skipped_listed_ambiguity", 1);
+            } else {
+                t.o(&format!("root.header_variant.{variant}"), 1);
+                let info = json!({"base": base_info, "header_variant": variant, "header_hex": hex::encode(&bytes[..bytes.len().min(32)])});
+                match RootFile::parse(&bytes) {
+                    Ok(p) => {
+                        t.o(&format!("root.header_variant.parsed_as.{}", ver_name(p.version)), 1);
+                        verify_root(ctx, case, t, rng, &p, &built.recs, &built.paths, &format!("{class}|header={variant}"), "header-variant|", &info);
+                    }
+                    Err(e) => viol(ctx, case, &format!("C03|root|header-variant|built-output-misparsed|{class}|header={variant}"), "RootFile::parse rejects builder-written blocks under another header layout of the same version", json!({"error": e.to_string(), "info": info})),
+                }
+            }
+        }
+    }
+    // ---- (b) CascFormat entry points: parse -> build (through add_file_in_block) -> parse
+    if sel % 3 == 1 {
+        let class = class_of(version, &built.recs);
+        let info = json!({"base": base_info, "path": "CascFormat::parse -> CascFormat::build -> CascFormat::parse"});
+        let r = <RootFile as CascFormat>::parse(&built.bytes).and_then(|p| <RootFile as CascFormat>::build(&p)).and_then(|b| <RootFile as CascFormat>::parse(&b));
+        t.o("root.casc_format_roundtrips", 1);
+        match r {
+            Ok(p) => {
+                verify_root(ctx, case, t, rng, &p, &built.recs, &built.paths, &class, "CascFormat|", &info);
+            }
+            Err(e) => viol(ctx, case, &misparse_sig("CascFormat|", &class), "the CascFormat parse/build/parse chain fails on a RootBuilder-produced manifest", json!({"error": e.to_string(), "info": info})),
+        }
+    }
+    // ---- (c) lookup tables rebuilt in place answer like the freshly parsed ones
+    if sel % 3 == 2 {
+        parsed.rebuild_lookups();
+        t.o("root.rebuild_lookups", 1);
+        verify_root(ctx, case, t, rng, &parsed, &built.recs, &built.paths, &class_of(version, &built.recs), "rebuild_lookups|", &base_info);
+    }
+    t.o(if parsed.validate().is_ok() { "root.validate_ok" } else { "root.validate_err" }, 1);
+
+    // ---- (d) editing operations on a builder made from the parsed manifest
+    let mut model: Vec<(Rec, Option<String>)> = built.recs.iter().enumerate().map(|(i, r)| (r.clone(), built.paths.get(&i).cloned())).collect();
+    let mut b = RootBuilder::from_root_file(&parsed);
+    t.o("root.edit.from_root_file", 1);
+    let bviol = |api: &str, rel: &str, witness: Value| {
+        viol(ctx, case, &format!("C03|root|RootBuilder::{api}|{rel}"), "an editing / query operation of RootBuilder disagrees with the model of what the builder holds", json!({"witness": witness, "base": base_info}));
+    };
+    let lf = LocaleFlags::new;
+    let cf = ContentFlags::new;
+    let fid = FileDataId::new;
+    let blocks_of = |m: &[(Rec, Option<String>)]| -> BTreeMap<(u32, u64), usize> {
+        let mut bm = BTreeMap::new();
+        for (r, _) in m {
+            *bm.entry((r.locale, r.content)).or_insert(0usize) += 1;
+        }
+        bm
+    };
+    let check_state = |b: &RootBuilder, m: &[(Rec, Option<String>)], when: &str| -> bool {
+        let bm = blocks_of(m);
+        let mut stats: Vec<(u32, u64, usize)> = b.block_stats().into_iter().map(|(l, c, n)| (l.value(), c.value, n)).collect();
+        stats.sort_unstable();
+        let want: Vec<(u32, u64, usize)> = bm.iter().map(|((l, c), n)| (*l, *c, *n)).collect();
+        if b.file_count() != m.len() || b.block_count() != bm.len() || stats != want {
+            bviol("file_count/block_count/block_stats", &format!("!=model|{when}"), json!({"file_count": b.file_count(), "block_count": b.block_count(), "expected": [m.len(), bm.len()]}));
+            return false;
+        }
+        true
+    };
+    if b.version() != version && parsed.version != version {
+        t.o("root.edit.version_detected_differs", 1);
+    }
+    if !check_state(&b, &model, "after-from_root_file") {
+        return;
+    }
+    if (sel / 3) % 4 == 3 {
+        // start over: clear and put everything back through add_file_in_block
+        b.clear();
+        t.o("root.edit.clear", 1);
+        if b.file_count() != 0 || b.block_count() != 0 || model.iter().take(8).any(|(r, _)| b.has_file(fid(r.fdid))) {
+            bviol("clear", "entries-left", json!({"file_count": b.file_count()}));
+            return;
+        }
+        let mut order: Vec<usize> = (0..model.len()).collect();
+        rng.shuffle(&mut order);
+        for i in order {
+            let r = &model[i].0;
+            b.add_file_in_block(fid(r.fdid), ContentKey::from_bytes(r.ckey), r.hash, lf(r.locale), cf(r.content));
+        }
+    }
+    // queries before the edits
+    let ids: Vec<u32> = {
+        let mut v: Vec<u32> = model.iter().map(|(r, _)| r.fdid).collect();
+        v.sort_unstable();
+        v.dedup();
+        v
+    };
+    let query = |b: &RootBuilder, m: &[(Rec, Option<String>)], id: u32, when: &str| {
+        let of: Vec<&Rec> = m.iter().map(|(r, _)| r).filter(|r| r.fdid == id).collect();
+        let has = b.has_file(fid(id));
+        let found = b.find_file(fid(id)).map(|k| *k.as_bytes());
+        let mut all: Vec<(u32, u64, [u8; 16])> = b.find_all_entries(fid(id)).into_iter().map(|(l, c, k)| (l.value(), c.value, *k.as_bytes())).collect();
+        all.sort_unstable();
+        let mut want: Vec<(u32, u64, [u8; 16])> = of.iter().map(|r| (r.locale, r.content, r.ckey)).collect();
+        want.sort_unstable();
+        let found_ok = match found {
+            None => of.is_empty(),
+            Some(k) => of.iter().any(|r| r.ckey == k),
+        };
+        if has == of.is_empty() || !found_ok || all != want {
+            bviol("has_file/find_file/find_all_entries", &format!("!=model|{when}"), json!({"fdid": id, "has_file": has, "find_file": found.map(hex::encode), "find_all_entries": all.len(), "model_entries": want.len()}));
+        }
+        for r in &of {
+            if !b.has_file_in_block(fid(id), lf(r.locale), cf(r.content)) {
+                bviol("has_file_in_block", &format!("false-for-present-entry|{when}"), json!({"fdid": id, "locale": r.locale, "content": r.content}));
+            }
+        }
+    };
+    let mut n_q = 0u64;
+    for id in ids.iter().step_by((ids.len() / 25).max(1)) {
+        n_q += 2;
+        query(&b, &model, *id, "before-edits");
+        let absent = id.wrapping_add(1);
+        query(&b, &model, absent, "before-edits");
+    }
+    // ---- removals
+    let share = [0u64, 8, 4, 2][rng.usize_below(4)];
+    let mut removed_ids: Vec<u32> = Vec::new();
+    if share != 0 {
+        let mut picks: Vec<u32> = Vec::new();
+        if rng.bool() {
+            picks.extend(ids.first());
+        }
+        if rng.bool() {
+            picks.extend(ids.last());
+        }
+        picks.extend(ids.iter().filter(|_| rng.chance(1, share)));
+        picks.sort_unstable();
+        picks.dedup();
+        rng.shuffle(&mut picks);
+        for id in picks {
+            let entries: Vec<(u32, u64)> = model.iter().filter(|(r, _)| r.fdid == id).map(|(r, _)| (r.locale, r.content)).collect();
+            if entries.len() >= 2 && rng.bool() {
+                // only one of the blocks that hold the id
+                let (l, c) = entries[rng.usize_below(entries.len())];
+                let r = b.remove_file_from_block(fid(id), lf(l), cf(c));
+                model.retain(|(m, _)| !(m.fdid == id && m.locale == l && m.content == c));
+                if !r {
+                    bviol("remove_file_from_block", "returns-false-for-present-entry", json!({"fdid": id, "locale": l, "content": c}));
+                }
+                t.o("root.edit.remove_file_from_block", 1);
+            } else {
+                let r = b.remove_file(fid(id));
+                model.retain(|(m, _)| m.fdid != id);
+                removed_ids.push(id);
+                if !r {
+                    bviol("remove_file", "returns-false-for-present-id", json!({"fdid": id}));
+                }
+            }
+        }
+    }
+    for _ in 0..4 {
+        let id = if !ids.is_empty() && rng.bool() { rng.pick(&ids).wrapping_add(1) } else { rng.next_u32() };
+        if model.iter().all(|(r, _)| r.fdid != id) {
+            if b.remove_file(fid(id)) {
+                bviol("remove_file", "returns-true-for-absent-id", json!({"fdid": id}));
+            }
+            if b.remove_file_from_block(fid(id), lf(LocaleFlags::ENUS), cf(0)) {
+                bviol("remove_file_from_block", "returns-true-for-absent-id", json!({"fdid": id}));
+            }
+        }
+    }
+    // an id that is present, asked for in a block that does not hold it
+    if let Some((r, _)) = model.first() {
+        let other = (r.locale ^ 0x4000_0000, r.content);
+        if model.iter().all(|(m, _)| !(m.fdid == r.fdid && (m.locale, m.content) == other)) && (b.remove_file_from_block(fid(r.fdid), lf(other.0), cf(other.1)) || b.has_file_in_block(fid(r.fdid), lf(other.0), cf(other.1))) {
+            bviol("remove_file_from_block/has_file_in_block", "true-for-block-without-the-id", json!({"fdid": r.fdid}));
+        }
+    }
+    // ---- content-key updates (every entry of the id)
+    let mut updated = 0u64;
+    let live_ids: Vec<u32> = {
+        let mut v: Vec<u32> = model.iter().map(|(r, _)| r.fdid).collect();
+        v.sort_unstable();
+        v.dedup();
+        v
+    };
+    for id in &live_ids {
+        if rng.chance(1, 8) {
+            let nk = rng.array::<16>();
+            let n = b.update_file(fid(*id), ContentKey::from_bytes(nk));
+            let mut want = 0usize;
+            for (r, _) in &mut model {
+                if r.fdid == *id {
+                    r.ckey = nk;
+                    want += 1;
+                }
+            }
+            updated += 1;
+            if n != want {
+                bviol("update_file", "updated-count!=entries-of-id", json!({"fdid": id, "returned": n, "entries": want}));
+            }
+        }
+    }
+    let absent_id = live_ids.last().map_or(7, |l| l.wrapping_add(3));
+    if model.iter().all(|(r, _)| r.fdid != absent_id) && b.update_file(fid(absent_id), ContentKey::from_bytes([1; 16])) != 0 {
+        bviol("update_file", "updated-count!=entries-of-id", json!({"fdid": absent_id, "entries": 0}));
+    }
+    if rng.bool() {
+        b.optimize_blocks();
+        t.o("root.edit.optimize_blocks", 1);
+    }
+    // ---- additions: new ids in existing blocks (same kind: named / unnamed) or in a new block
+    let v1 = version == RootVersion::V1;
+    let used_locales: u32 = model.iter().fold(0, |a, (r, _)| a | r.locale);
+    let mut used_hashes: BTreeSet<u64> = model.iter().filter_map(|(r, _)| r.hash).collect();
+    let existing_blocks: Vec<(u32, u64)> = blocks_of(&model).keys().copied().collect();
+    let free_bit = LOCALE_BITS.iter().copied().find(|x| used_locales & x == 0);
+    let adds = match rng.below(4) {
+        0 => 0,
+        1 => rng.urange(1, 3),
+        _ => rng.urange(4, 40),
+    };
+    let mut next_id: u64 = match rng.below(3) {
+        0 => u64::from(live_ids.last().copied().unwrap_or(0)) + 1,
+        1 => u64::from(live_ids.first().copied().unwrap_or(1000) / 2),
+        _ => rng.below(0xffff_0000),
+    };
+    let mut added = 0u64;
+    for i in 0..adds {
+        while next_id <= u64::from(u32::MAX) && model.iter().any(|(r, _)| u64::from(r.fdid) == next_id) {
+            next_id += 1;
+        }
+        if next_id > u64::from(u32::MAX) {
+            break;
+        }
+        let id = if i == 0 && !removed_ids.is_empty() && rng.bool() { removed_ids[0] } else { next_id as u32 };
+        if model.iter().any(|(r, _)| r.fdid == id) {
+            continue;
+        }
+        next_id += rng.range(1, 50);
+        let (loc, content) = if let (true, Some(fb)) = (existing_blocks.is_empty() || rng.chance(1, 4), free_bit) {
+            let unnamed = !v1 && rng.bool();
+            (fb, if unnamed { ContentFlags::NO_NAME_HASH | ContentFlags::INSTALL } else { ContentFlags::LOAD_ON_WINDOWS })
+        } else if existing_blocks.is_empty() {
+            break;
+        } else {
+            *rng.pick(&existing_blocks)
+        };
+        let named_block = v1 || content & ContentFlags::NO_NAME_HASH == 0;
+        let ckey = rng.array::<16>();
+        let mut path: Option<String> = None;
+        let hash: Option<u64> = if named_block {
+            if rng.bool() {
+                let mut p = gen_path(rng, 100_000 + i, false);
+                let mut h = calculate_name_hash(&p);
+                while !used_hashes.insert(h) {
+                    p.push('y');
+                    h = calculate_name_hash(&p);
+                }
+                b.add_file(fid(id), ContentKey::from_bytes(ckey), Some(&p), lf(loc), cf(content));
+                path = Some(p);
+                Some(h)
+            } else {
+                let mut h = rng.next_u64();
+                while !used_hashes.insert(h) {
+                    h = rng.next_u64();
+                }
+                if rng.bool() {
+                    b.add_file_in_block(fid(id), ContentKey::from_bytes(ckey), Some(h), lf(loc), cf(content));
+                } else {
+                    b.add_file_with_hash(fid(id), ContentKey::from_bytes(ckey), Some(h), lf(loc), cf(content));
+                }
+                Some(h)
+            }
+        } else {
+            b.add_file_in_block(fid(id), ContentKey::from_bytes(ckey), None, lf(loc), cf(content));
+            None
+        };
+        model.push((Rec { fdid: id, ckey, hash, locale: loc, content }, path));
+        added += 1;
+    }
+    // ---- the builder must hold exactly the edited model
+    check_state(&b, &model, "after-edits");
+    for id in removed_ids.iter().take(25) {
+        n_q += 1;
+        query(&b, &model, *id, "after-edits");
+    }
+    for id in live_ids.iter().step_by((live_ids.len() / 15).max(1)) {
+        n_q += 1;
+        query(&b, &model, *id, "after-edits");
+    }
+    t.o(if b.validate().is_ok() { "root.edit.builder_validate_ok" } else { "root.edit.builder_validate_err" }, 1);
+    let _ = b.estimate_size();
+    // ---- format conversion where every record is representable in the target version
+    let mut out_version = version;
+    if rng.chance(1, 3) {
+        let all_named = model.iter().all(|(r, _)| r.hash.is_some());
+        let low_flags = model.iter().all(|(r, _)| r.content < (1u64 << 32));
+        let targets: Vec<RootVersion> = [RootVersion::V1, RootVersion::V2, RootVersion::V3, RootVersion::V4]
+            .into_iter()
+            .filter(|tv| *tv != version)
+            .filter(|tv| match tv {
+                RootVersion::V1 => all_named && low_flags && model.iter().all(|(r, _)| r.content & ContentFlags::NO_NAME_HASH == 0),
+                RootVersion::V4 => true,
+                _ => low_flags,
+            })
+            // a V1 manifest has no NO_NAME_HASH blocks and only named records: every target can hold it
+            .collect();
+        if !targets.is_empty() {
+            out_version = *rng.pick(&targets);
+            b.set_version(out_version);
+            t.o(&format!("root.edit.set_version.{}->{}", ver_name(version), ver_name(out_version)), 1);
+            if b.version() != out_version {
+                bviol("set_version/version", "version-not-set", json!({"wanted": ver_name(out_version)}));
+            }
+        }
+    }
+    t.o("root.edit.presence_queries", n_q);
+    t.o("root.edit.removed_ids", removed_ids.len() as u64);
+    t.o("root.edit.updated_ids", updated);
+    t.o("root.edit.added", added);
+    let bytes = match b.build() {
+        Ok(x) => x,
+        Err(_) => {
+            t.o(if model.is_empty() { "root.edit.builder_refused_empty" } else { "root.edit.builder_refused" }, 1);
+            return;
+        }
+    };
+    let recs: Vec<Rec> = model.iter().map(|(r, _)| r.clone()).collect();
+    let paths: BTreeMap<usize, String> = model.iter().enumerate().filter_map(|(i, (_, p))| p.clone().map(|p| (i, p))).collect();
+    let class = class_of(out_version, &recs);
+    let info = json!({"base": base_info, "records": recs.len(), "named": recs.iter().filter(|r| r.hash.is_some()).count(), "removed_ids": removed_ids.len(), "updated_ids": updated, "added": added, "converted_to": if out_version == version { Value::Null } else { json!(ver_name(out_version)) }, "header_hex": hex::encode(&bytes[..bytes.len().min(24)])});
+    let reparsed = match RootFile::parse(&bytes) {
+        Ok(p) => p,
+        Err(e) => {
+            viol(ctx, case, &misparse_sig("after-edit|", &class), "RootFile::parse rejects (or misreads) the output of an edited RootBuilder", json!({"error": e.to_string(), "info": info}));
+            return;
+        }
+    };
+    t.o("root.edit.structures", 1);
+    if verify_root(ctx, case, t, rng, &reparsed, &recs, &paths, &class, "after-edit|", &info) {
+        let mut gone = 0u64;
+        for id in &removed_ids {
+            if recs.iter().all(|r| r.fdid != *id) {
+                gone += 1;
+                if reparsed.resolve_by_id(fid(*id), lf(LocaleFlags::ALL), cf(0)).is_some() || reparsed.get_entries_by_id(fid(*id)).is_some_and(|v| !v.is_empty()) {
+                    viol(ctx, case, &format!("C03|root|after-edit|resolve_by_id|removed-id-found|{class}"), "a FileDataID removed with remove_file still resolves after rebuild", json!({"fdid": id, "info": info}));
+                }
+            }
+        }
+        t.o("root.edit.removed_id_probes", gone);
     }
 }
